@@ -458,11 +458,15 @@ func c12(c *ctx) {
 		}
 		for _, fin := range []bool{true, false} {
 			for _, op := range []int{1, 2} {
-				for _, rsv := range []int{0, 1, 2, 3, 4, 8} {
+				for _, rsv := range []int{0, 1, 2, 3, 4, 8, 16} {
 					key := fmt.Sprintf("helper/%s/%v/%d/%d", pn, fin, op, rsv)
 					// (4, 8: frames put together by hand, whose header length field is 0 / half the payload:
 					// the helpers take the message from the payload slice)
 					hlen := int64(len(msg))
+					masked := rsv == 16 // (16: a header that says "masked": the helpers compress and inflate the payload as it is)
+					if masked {
+						rsv = 0
+					}
 					if rsv >= 4 {
 						hlen = []int64{0, int64(len(msg) / 2)}[rsv/8]
 						rsv = 0
@@ -470,7 +474,10 @@ func c12(c *ctx) {
 					if !vh.Only(key) {
 						continue
 					}
-					f := ws.Frame{Header: ws.Header{Fin: fin, Rsv: byte(rsv), OpCode: ws.OpCode(op), Length: hlen, Masked: false}, Payload: append([]byte(nil), msg...)}
+					f := ws.Frame{Header: ws.Header{Fin: fin, Rsv: byte(rsv), OpCode: ws.OpCode(op), Length: hlen, Masked: masked}, Payload: append([]byte(nil), msg...)}
+					if masked {
+						f.Header.Mask = [4]byte{0x11, 0x22, 0x33, 0x44}
+					}
 					// the API forms rotate: package-level functions, an own Helper (other level), the
 					// Buffer variants with one buffer per direction
 					hn++
@@ -510,7 +517,7 @@ func c12(c *ctx) {
 						_, derr = decompress(ws.Frame{Header: ws.Header{Fin: fin, Rsv: byte(rsv | 4), OpCode: ws.OpCode(op)}, Payload: []byte{0}}, &dbuf)
 					}
 					pf, perr := decompress(f, &pbuf) // no RSV1: returned as it is
-					emit(map[string]interface{}{"k": "helper", "key": key, "fin": fin, "op": op, "rsv": rsv, "masked": false,
+					emit(map[string]interface{}{"k": "helper", "key": key, "fin": fin, "op": op, "rsv": rsv, "masked": masked, "dmasked": df.Header.Masked, "maskKept": cf.Header.Mask == f.Header.Mask && (cerr != nil || derr != nil || df.Header.Mask == f.Header.Mask),
 						"cerr": cerr != nil, "derr": derr != nil, "perr": perr != nil, "crsv": int(cf.Header.Rsv), "cop": int(cf.Header.OpCode), "cfin": cf.Header.Fin, "cmasked": cf.Header.Masked,
 						"clenOK": cf.Header.Length == int64(len(cf.Payload)), "dlenOK": df.Header.Length == int64(len(df.Payload)),
 						"drsv": int(df.Header.Rsv), "dop": int(df.Header.OpCode), "dfin": df.Header.Fin, "roundtrip": bytes.Equal(df.Payload, msg),
